@@ -106,12 +106,15 @@ def machine(routine_ops, jump_index_last=True):
     return lts, entries
 
 
-def skip_tau(lts, node, side):
+def skip_tau(lts, node, side, chain=None):
+    """Follow silent steps; if `chain` is a list, the silent nodes passed are appended to it."""
     seen = None
     while True:
         n = lts[node]
         if n[0] != "tau":
             return node
+        if chain is not None:
+            chain.append(node)
         if seen is None:
             seen = {node}
         node = n[1]
@@ -144,8 +147,9 @@ def default_label_eq(x, y):
     return False
 
 
-def product(lts_a, a0, lts_b, b0, label_eq=None):
+def product(lts_a, a0, lts_b, b0, label_eq=None, tau_chains=None):
     """Exhaustive breadth-first exploration of the synchronous product.
+    If tau_chains is a list, the pair (silent nodes passed on the left, on the right) of every transition is appended.
 
     Returns (ok, states, transitions, relation, mismatch).  relation is the set of pairs of
     observable nodes reached together.  mismatch (if any) carries the shortest distinguishing trace.
@@ -153,8 +157,12 @@ def product(lts_a, a0, lts_b, b0, label_eq=None):
     if label_eq is None:
         label_eq = default_label_eq
     try:
-        a = skip_tau(lts_a, a0, "left")
-        b = skip_tau(lts_b, b0, "right")
+        ca = [] if tau_chains is not None else None
+        cb = [] if tau_chains is not None else None
+        a = skip_tau(lts_a, a0, "left", ca)
+        b = skip_tau(lts_b, b0, "right", cb)
+        if tau_chains is not None:
+            tau_chains.append((ca, cb))
     except Divergence as d:
         return False, 1, 0, set(), Mismatch([], a0, b0, f"divergence: {d}")
     start = (a, b)
@@ -196,8 +204,12 @@ def product(lts_a, a0, lts_b, b0, label_eq=None):
         for (sa, sb), step in succs:
             transitions += 1
             try:
-                sa = skip_tau(lts_a, sa, "left")
-                sb = skip_tau(lts_b, sb, "right")
+                ca = [] if tau_chains is not None else None
+                cb = [] if tau_chains is not None else None
+                sa = skip_tau(lts_a, sa, "left", ca)
+                sb = skip_tau(lts_b, sb, "right", cb)
+                if tau_chains is not None:
+                    tau_chains.append((ca, cb))
             except Divergence as d:
                 return False, len(parent), transitions, relation, Mismatch(
                     trace_of(st) + [step], na, nb, f"divergence: {d}")
